@@ -379,7 +379,14 @@ def params(sh):
           ('ndim|Bycycle.fit 3d', 'reject', lambda: Bycycle().fit(s3, FS, FR)),
           ('ndim|BycycleGroup.fit 1d', 'reject', lambda: BycycleGroup().fit(sig, FS, FR, n_jobs=1)),
           ('ndim|BycycleGroup.fit 4d', 'reject', lambda: BycycleGroup().fit(tiny((1, 1, 2)), FS, FR, n_jobs=1)),
-          ('ndim-valid|Bycycle.fit 1d', 'accept', lambda: Bycycle().fit(sig, FS, FR))]
+          ('ndim-valid|Bycycle.fit 1d', 'accept', lambda: Bycycle().fit(sig, FS, FR)),
+          # extra axes of extent 1 do not make an array 1-dimensional
+          ('ndim|Bycycle.fit shape (1, n)', 'reject', lambda: Bycycle().fit(sig[None, :], FS, FR)),
+          ('ndim|Bycycle.fit shape (n, 1)', 'reject', lambda: Bycycle().fit(sig[:, None], FS, FR)),
+          ('ndim|Bycycle.fit shape (1, 1, n)', 'reject', lambda: Bycycle().fit(sig[None, None, :], FS, FR)),
+          ('ndim|BycycleGroup.fit shape (1, 1, 1, n)', 'reject', lambda: BycycleGroup().fit(sig[None, None, None, :], FS, FR, n_jobs=1)),
+          ('ndim-valid|BycycleGroup.fit shape (1, n)', 'accept', lambda: BycycleGroup().fit(sig[None, :], FS, FR, n_jobs=1)),
+          ('ndim-valid|BycycleGroup.fit shape (1, 1, n)', 'accept', lambda: BycycleGroup().fit(sig[None, None, :], FS, FR, n_jobs=1))]
     # plotting before fitting
 
     def plot_after_fit():
